@@ -65,15 +65,16 @@ type ResSpec struct{ Scopes []ScopeSpec }
 
 // ReqSpec is one Consume call.
 type ReqSpec struct {
-	Caller   int
-	Req      int
-	At       time.Duration // virtual arrival instant (relative to scenario start); callers run their requests in order
-	Res      []ResSpec
-	CtxGroup int                 // requests of one caller with the same group share ONE context object
-	Meta     map[string][]string // client metadata of the request context
-	CancelAt time.Duration       // <0: never
-	Deadline time.Duration       // <0: none; relative to the call
-	items    int
+	Caller     int
+	Req        int
+	At         time.Duration // virtual arrival instant (relative to scenario start); callers run their requests in order
+	Res        []ResSpec
+	TraceGroup int                 // >=0: the caller span is a child of the shared upstream span of that group (same trace id)
+	CtxGroup   int                 // requests of one caller with the same group share ONE context object
+	Meta       map[string][]string // client metadata of the request context
+	CancelAt   time.Duration       // <0: never
+	Deadline   time.Duration       // <0: none; relative to the call
+	items      int
 }
 
 func (r *ReqSpec) ID() string { return fmt.Sprintf("c%d.r%d", r.Caller, r.Req) }
